@@ -160,6 +160,25 @@ func (c *Ctx) WhoMayCall(what string, targets []string, allowed []string, requir
 			c.Unresolved("expected caller " + r + " of " + what)
 		}
 	}
+	// thorough tier: the whole-program VTA call graph also sees calls through function values, method values and
+	// interfaces that the syntactic index cannot attribute; any additional module caller must be allowed too.
+	if c.P.Whole {
+		var keys []string
+		for _, fn := range c.P.Funcs {
+			if fo, ok := fn.Object().(*types.Func); ok && RefIn(FuncRef(fo), targets...) {
+				keys = append(keys, ir.FuncKey(fn))
+			}
+		}
+		for k, callers := range c.GraphCallers(keys...) {
+			for _, caller := range callers {
+				if _, seen := byOuter[caller]; seen {
+					continue
+				}
+				c.Check(RefIn(caller, allowed...), what+" reached from "+caller+" (call graph)", "-",
+					"VTA call-graph caller is in the allowed set", "the whole-program call graph (VTA) shows "+caller+" reaching "+k+" through a function value or interface: not in the allowed set {"+strings.Join(allowed, ", ")+"}")
+			}
+		}
+	}
 }
 
 // VTAExtraCallers uses the whole-program call graph (thorough tier) to find module callers of the
